@@ -6,6 +6,7 @@ import (
 	"path/filepath"
 	"regexp"
 	"sort"
+	"strconv"
 	"strings"
 	"sync"
 	"time"
@@ -25,6 +26,9 @@ type genCombo struct {
 	placement string // inpkg-test | inpkg | exttest | separate
 	extraCfg  core.M // additional root-level settings (custom templates)
 	perFile   bool   // one output file (hence one import registry) per interface instead of one per batch
+	// interface-level template-data, assigned round-robin over the interfaces of a run (a nil entry leaves the
+	// interface without a config section): the levels may disagree with the root-level data and with each other
+	ifaceData []core.M
 }
 
 func (g genCombo) String() string {
@@ -102,11 +106,69 @@ func (g genCombo) config(names []string) core.M {
 		cfg[k] = v
 	}
 	ifc := core.M{}
-	for _, n := range names {
+	for i, n := range names {
 		ifc[n] = core.M{}
+		// keyed by the case number, so that an interface keeps its data when a failing batch is bisected
+		if d, err := strconv.Atoi(strings.TrimLeft(n, "C")); err == nil {
+			i = d
+		}
+		if len(g.ifaceData) > 0 && g.ifaceData[i%len(g.ifaceData)] != nil {
+			ifc[n] = core.M{"config": core.M{"template-data": g.ifaceData[i%len(g.ifaceData)]}}
+		}
 	}
 	cfg["packages"] = core.M{core.ModPath + "/src": core.M{"interfaces": ifc}}
 	return cfg
+}
+
+// levelSplitCombos: template-data given at root level and at interface level with different values, for all
+// interfaces of the file or for every other one (so that one file holds interfaces with different effective data).
+func levelSplitCombos(quick bool) []genCombo {
+	var out []genCombo
+	add := func(t, key string, rootOn, mixed bool, places, fmts []string) {
+		on, off := any(true), any(false)
+		if key == "unroll-variadic" { // its default is true
+			on, off = false, true
+		}
+		g := genCombo{template: t}
+		if rootOn {
+			g.data, g.ifaceData = core.M{key: on}, []core.M{{key: off}}
+			g.dataName = fmt.Sprintf("root %s=%v, interface %s=%v", key, on, key, off)
+		} else {
+			g.data, g.ifaceData = core.M{}, []core.M{{key: on}}
+			g.dataName = fmt.Sprintf("interface %s=%v", key, on)
+		}
+		if mixed {
+			g.ifaceData = append(g.ifaceData, nil)
+			g.dataName += " on every other interface"
+		}
+		for _, pl := range places {
+			for _, f := range fmts {
+				g.placement, g.formatter = pl, f
+				out = append(out, g)
+			}
+		}
+	}
+	allPlaces := []string{"inpkg-test", "inpkg", "exttest", "separate", "separate-samename"}
+	fmts := []string{"gofmt"}
+	if !quick {
+		fmts = []string{"gofmt", "noop", "goimports"}
+	}
+	for _, rootOn := range []bool{false, true} {
+		for _, mixed := range []bool{false, true} {
+			add("matryer", "skip-ensure", rootOn, mixed, allPlaces, fmts)
+			if quick && !(mixed && !rootOn) {
+				continue
+			}
+			places := allPlaces
+			if quick {
+				places = []string{"inpkg-test", "separate"}
+			}
+			add("matryer", "stub-impl", rootOn, mixed, places, fmts)
+			add("matryer", "with-resets", rootOn, mixed, places, fmts)
+			add("testify", "unroll-variadic", rootOn, mixed, places, fmts)
+		}
+	}
+	return out
 }
 
 func (g genCombo) outFile() string {
@@ -356,6 +418,7 @@ func C01(c *core.Ctx) error {
 			combos = append(combos, genCombo{template: t, data: core.M{}, formatter: "gofmt", placement: pl, perFile: true})
 		}
 	}
+	combos = append(combos, levelSplitCombos(quick)...)
 	knownCase := map[string]bool{} // "<case id>|<template>"
 	for _, k := range c.KnownKeys() {
 		p := strings.SplitN(k, "|", 3)
